@@ -5,7 +5,7 @@ from math import gcd
 from . import gen, model, run, props
 
 PLANS = {
-    "C05": {"twin": ["TwinBlocks", "TwinTaus"], "single": []},
+    "C05": {"twin": ["TwinBlocks", "TwinTaus"], "single": ["C05_FftSmooth"]},
     "C10": {"twin": ["TwinFull"], "single": []},
     "C11": {"twin": ["TwinChan", "TwinCtl"], "single": ["C11_MaskUntouched", "C03_CallOk"]},
     "C16": {"twin": ["TwinFull"], "single": ["C16_Flush", "C16_VecForward"]},
@@ -541,6 +541,13 @@ def c05_scripts(rng, tier):
                     o["out_extra"] = rng.randrange(1, 2000)
                 ops.append(o)
         S.append(ops)
+    # ---- FFT, without a twin (all variants share resample_unit: a defect there is the same in every
+    #      chunking): the index signal must come out as a linear function (Contract C05_FftSmooth)
+    for _ in range(n_gen):
+        for kind in gen.FFT:
+            h = gen.valid_history(rng, kind, rng.randrange(12, 40), allow=("reset", "via"), signal="index", T=64,
+                                  ch=rng.choice([1, 1, 2]), taus_cap=100000)
+            S.append(h)
     # ---- async: constant ratio, different chunkings / variants: same evaluation instants
     for _ in range(n_gen):
         fam = rng.choice(["Fast", "Sinc"])
